@@ -207,6 +207,83 @@ def run_double(ctx: Ctx):
         shutil.rmtree(tmp, ignore_errors=True)
 
 
+def run_executor_interrupt(ctx: Ctx):
+    """training through an executor (non-vectorised models, one evaluation per task) interrupted INSIDE a model evaluation: the interruption
+    must end the run (it is not a model failure to be recorded and imputed), the saved state holds only true outputs, resuming reaches the
+    uninterrupted result"""
+    from concurrent.futures import ThreadPoolExecutor
+    from amisc import System
+    import models_lib
+    rng = ctx.rng
+    tmp = WORK / f'c13_tmp3_{os.getpid()}'
+    shutil.rmtree(tmp, ignore_errors=True); tmp.mkdir(parents=True, exist_ok=True)
+    cwd0 = os.getcwd()
+    sw = models_lib.SERIAL_CALLS
+    try:
+        for n in range(ctx.pick(2, 8)):
+            sys_seed = ctx.seed * 1409 + n; np_seed = rng.randint(0, 10 ** 6); K = 4
+
+            def fresh(root):
+                return systems.persist_chain_system(random.Random(sys_seed), ncomp=2, name='cx', root_dir=root, with_alpha=True, costs=False, serial=True)
+            ref_sys, spec = fresh(None)
+            sw.update(n=0, interrupt_at=None, exc=None)
+            with ThreadPoolExecutor(max_workers=1) as pool, c12.reseeding(np_seed):
+                ref_sys.fit(max_iter=K, num_refine=10, max_tol=-1.0, executor=pool)
+            ref = c12.full_state(ref_sys)
+            ntrain = sum(len(d) for c in ref_sys.components if c.has_surrogate for d in c.training_data.yi_map.values())
+            if ntrain < 3:
+                continue
+            p = rng.randint(2, ntrain)
+            root = tmp / f'd{n}'; root.mkdir()
+            system, _ = fresh(root)
+            case = {'executor_interruption': n, 'system_seed': sys_seed, 'numpy_seed': np_seed, 'iterations': K, 'interrupted_model_evaluation': p}
+            ctx.case(case, nontrivial=True, kind='executor-interruption')
+            sw.update(n=0, interrupt_at=p, exc=Crash)
+            interrupted = False
+            try:
+                with ThreadPoolExecutor(max_workers=1) as pool, c12.reseeding(np_seed):
+                    try:
+                        system.fit(max_iter=K, num_refine=10, max_tol=-1.0, executor=pool)
+                    except Crash:
+                        interrupted = True
+            except Exception as e:
+                ctx.violate('C13:interrupted-fit-raises-something-else', f'{type(e).__name__}: {e}', case); continue
+            finally:
+                sw.update(interrupt_at=None, exc=None)
+            try:
+                if not interrupted:
+                    nerr = sum(len(d) for c in system.components if c.has_surrogate for d in c.training_data.error_map.values())
+                    ctx.violate('C13:interruption-swallowed', f'a model evaluation was interrupted (a BaseException raised inside evaluation #{p}, run through an executor) '
+                                f'but fit() went on to the end; {nerr} evaluation(s) are recorded as model failures', case); continue
+                err_file = system.root_dir / 'surrogates' / 'cx_error.yml'
+                os.chdir(tmp)
+                try:
+                    l1 = System.load_from_file(err_file)
+                except Exception as e:
+                    ctx.violate('C13:saved-state-does-not-load', f'{type(e).__name__}: {e}', case); continue
+                finally:
+                    os.chdir(cwd0)
+                bad = data_truthful(l1, spec)
+                if bad:
+                    ctx.violate('C13:saved-value-not-a-model-output', f'stored {bad[0]}', case)
+                l1.root_dir = None
+                try:
+                    with c12.reseeding(np_seed):
+                        l1.fit(max_iter=K - l1.refine_level, num_refine=10, max_tol=-1.0)
+                except Exception as e:
+                    ctx.violate('C13:resume-raises', f'{type(e).__name__}: {e}', case); continue
+                st = c12.full_state(l1)
+                diffs = [d for d in c12.diff_states(ref, st) if d != 'history' or not c12.history_equiv(ref['history'], st['history'])]
+                if diffs:
+                    ctx.violate('C13:resumed-run-differs', f'after an interruption inside a model evaluation run through an executor, {diffs} differ from the uninterrupted run', case)
+            finally:
+                shutil.rmtree(root, ignore_errors=True)
+    finally:
+        sw.update(n=0, interrupt_at=None, exc=None)
+        os.chdir(cwd0)
+        shutil.rmtree(tmp, ignore_errors=True)
+
+
 def run(ctx: Ctx):
     import_amisc()
     from amisc import System
@@ -355,6 +432,7 @@ def run(ctx: Ctx):
         os.chdir(cwd0)
         shutil.rmtree(tmp, ignore_errors=True)
     run_double(ctx)
+    run_executor_interrupt(ctx)
     from common import run_model, ModelError
     for (case, real_keys, real_act, real_cand, na_c), mo in zip(fmeta, run_model(flines, shards=8) if flines else []):
         ctx.count('saved_states_compared')
